@@ -61,9 +61,27 @@ def _jaqal_import_module_relative(mod_name, import_path):
     spec = _jaqal_find_spec_relative(top_level, import_path)
     module = importlib.util.module_from_spec(spec)
     sys.modules[mod_name] = module
-    spec.loader.exec_module(module)
+    _relative_modules.add(mod_name)
+    try:
+        spec.loader.exec_module(module)
+    except BaseException:
+        # Leave nothing behind from a module that failed to load
+        _forget_relative_module(mod_name)
+        raise
 
     return module
+
+
+# Names this file has put into sys.modules on behalf of relative imports.
+_relative_modules = set()
+
+
+def _forget_relative_module(mod_name):
+    """Remove a relatively imported module and its submodules from sys.modules."""
+    sys.modules.pop(mod_name, None)
+    for k in [k for k in sys.modules.keys() if k.startswith(f"{mod_name}.")]:
+        del sys.modules[k]
+    _relative_modules.discard(mod_name)
 
 
 def jaqal_import(
@@ -83,6 +101,18 @@ def jaqal_import(
         raise ImportError("Module name may not be empty")
 
     module = sys.modules.get(mod_name)
+
+    if relative:
+        if module is not None and mod_name not in _relative_modules:
+            # Reloading would unload a module somebody else imported (even
+            # jaqalpaq itself), and later calls would see the damage.
+            raise ImportError(
+                f"Cannot import {mod_name} relatively: the name belongs to a module that is already imported"
+            )
+    elif mod_name in _relative_modules:
+        # A leftover of an earlier relative import is not an installed module
+        _forget_relative_module(mod_name)
+        module = None
 
     if module and reload_module:
         if full_reload:
